@@ -506,8 +506,10 @@ impl Python {
                     format!(
                         "{indent}\"\"\"\n{indented_comments}\n{indent}\"\"\"",
                         indent = indent,
+                        // Doc text must not be able to close the docstring it is written into.
                         indented_comments = comments
                             .iter()
+                            .map(|v| v.replace("\"\"\"", "\\\"\\\"\\\""))
                             .map(|v| format!("{}{}", indent, v))
                             .collect::<Vec<String>>()
                             .join("\n"),
@@ -515,6 +517,7 @@ impl Python {
                 } else {
                     comments
                         .iter()
+                        .flat_map(|v| v.split(|c| c == '\n' || c == '\r'))
                         .map(|v| format!("{}# {}", indent, v))
                         .collect::<Vec<String>>()
                         .join("\n")
